@@ -19,8 +19,9 @@ static ssize_t _fast_append(MPT_STRUCT(slice) *sl, size_t nblk, const void *from
 	
 	add = esze;
 	take = 0;
-	while (add < avail && nblk--) {
-		take += esze;
+	while (add <= avail && nblk--) {
+		take = add;
+		add += esze;
 	}
 	ptr = (void *) (buf + 1);
 	if (from) {
